@@ -213,9 +213,14 @@ class C13(Scenario):
         # history: a parameter is changed after the cache exists -> assignments are resolved again
         plain_p = [pn for pn, pd_ in E.Decl(m).parameters.items() if not hasattr(pd_.value, "fn")]
         # one edit, then a look: a later invalidating edit must not get the chance to repair what an earlier one left stale
-        with ctx.impl("update_parameter (first)"):
-            m.update_parameter(plain_p[-1], ctx.real(f"p2_{plain_p[-1]}"))
+        with ctx.impl("Simulator (before the update)"):
+            sim_early = Simulator(m)
+        with ctx.impl("update_parameter (first, through the simulator that already exists)"):
+            sim_early.update_parameter(plain_p[-1], ctx.real(f"p2_{plain_p[-1]}"))
         e1 = self.check_state(ctx, m, "after one update: ", state, T)
+        # nothing was simulated or overridden on that simulator: it starts from the values the assignments resolve to now
+        for v in names:
+            ctx.eq(f"after Simulator.update_parameter: that simulator starts from the re-resolved value [{v}]", sim_early.y0[v], e1[v])
         with ctx.impl("update_parameter"):
             for pn in plain_p[:-1]:
                 m.update_parameter(pn, ctx.real(f"p2_{pn}"))
